@@ -278,3 +278,46 @@ def dot_counts(dotfile, exclude_labels=("Terminating",)):
             if m:
                 nodes.add(m.group(1))
     return len(nodes), len(edges)
+
+
+def parse_tlc_states(text):
+    """States of a TLC behaviour (simulation file `STATE_k ==` blocks or the `State k: <...>` blocks of
+    a counterexample) as TLA+ record texts `[v1 |-> e1, ...]`, with the action header of each."""
+    out = []
+    blocks = re.split(r"^(?:STATE_\d+ ==|State \d+: .*)[ \t]*$", text, flags=re.M)
+    heads = re.findall(r"^(?:\\\* (<.*>)\nSTATE_\d+ ==|State \d+: (.*))[ \t]*$", text, flags=re.M)
+    for bi, b in enumerate(blocks[1:]):
+        # a block ends at the first blank line followed by something that is not a conjunct
+        lines = []
+        for ln in b.split("\n"):
+            if ln.startswith("/\\ ") or (lines and ln.startswith(" ")) or (lines and ln.strip() == "" and False):
+                lines.append(ln)
+            elif lines and ln.strip() == "":
+                break
+            elif not lines and ln.strip() == "":
+                continue
+            elif lines:
+                break
+        body = "\n".join(lines)
+        parts = re.split(r"^/\\ ", body, flags=re.M)[1:]
+        fields = []
+        for p in parts:
+            name, val = p.split(" = ", 1)
+            fields.append("%s |-> %s" % (name.strip(), " ".join(val.split())))
+        if fields:
+            h = heads[bi] if bi < len(heads) else ("", "")
+            out.append({"state": "[" + ", ".join(fields) + "]", "action": h[0] or h[1]})
+    return out
+
+
+def simulate_behaviours(workdir, module, cfg, num, depth, seed, timeout=600, prefix="simb"):
+    """Run TLC in simulation mode writing behaviours to files; returns (TLCResult, [behaviour]) where a
+    behaviour is the list produced by parse_tlc_states."""
+    d = os.path.join(workdir, prefix)
+    os.makedirs(d, exist_ok=True)
+    res = V.tlc(workdir, module, cfg=cfg, workers=1, timeout=timeout, deadlock=False,
+                simulate="file=%s/b,num=%d" % (prefix, num), depth=depth, seed=seed)
+    behs = []
+    for f in sorted(os.listdir(d)):
+        behs.append(parse_tlc_states(open(os.path.join(d, f)).read()))
+    return res, behs
